@@ -853,7 +853,32 @@ fn prop_case(idx: u64, rng: &mut Rng, st: &mut BTreeMap<&'static str, u64>, eval
     let mut writer = env.db(&base);
     let mut states: Vec<EvmState> = Vec::new();
     let mut descr = String::new();
+    // a racing reader: transaction `race_t` executes after only `race_p` < race_t predecessors have
+    // published (stale reads); checked at the end against its own read set (see below)
+    let race_t = rng.range(1, ntx as u64) as usize;
+    let race_p = rng.below(race_t as u64) as usize;
+    let mut raced: Option<(Vec<(Loc, Ver)>, Vec<(Address, Option<U256>, String)>)> = None;
     for k in 0..ntx {
+        if k == race_p {
+            let mut racer = env.db(&base);
+            racer.begin(race_t, 5);
+            let mut seen = Vec::new();
+            for a in &p.addrs {
+                if rng.chance(1, 2) {
+                    let i = racer.basic(*a).expect("base never fails");
+                    seen.push((*a, None, hinfo(&i)));
+                }
+                for s in &p.slots {
+                    if rng.chance(2, 3) {
+                        // raw storage read (precompile-style: no account load first)
+                        let v = racer.storage(*a, *s).expect("base never fails");
+                        seen.push((*a, Some(*s), format!("{v:x}")));
+                    }
+                }
+            }
+            let acc = racer.finish(&EvmState::default());
+            raced = Some((acc.reads, seen));
+        }
         let inc = rng.range(1, 3) as usize;
         writer.begin(k, inc);
         let mut state = EvmState::default();
@@ -872,6 +897,42 @@ fn prop_case(idx: u64, rng: &mut Rng, st: &mut BTreeMap<&'static str, u64>, eval
         writeln!(descr, "tx{k}: {}", print_state(&state)).unwrap();
         writer.finish(&state);
         states.push(state);
+    }
+    // the racing reader: if every location it recorded still resolves to the recorded version in the
+    // final memory (so version validation would accept it), re-reading must give the same values
+    if let Some((reads, seen)) = raced {
+        let rows = env.dump();
+        let valid = reads.iter().all(|(l, v)| {
+            let newest = rows.iter().filter(|r| &r.0 == l && r.1 < race_t).map(|r| (r.1, r.2)).max();
+            match v {
+                Ver::Mv(k, i) => newest == Some((*k, *i)),
+                Ver::Storage => newest.is_none(),
+                Ver::Ben(_) => true,
+            }
+        });
+        *st.entry(if valid { "race_still_valid" } else { "race_invalidated" }).or_default() += 1;
+        if valid {
+            let mut again = env.db(&base);
+            again.begin(race_t, 6);
+            for (a, slot, was) in &seen {
+                *evals += 1;
+                let now = match slot {
+                    None => hinfo(&again.basic(*a).expect("base never fails")),
+                    Some(s) => format!("{:x}", again.storage(*a, *s).expect("base never fails")),
+                };
+                if &now != was {
+                    let what = match slot {
+                        None => format!("basic({})", ha(a)),
+                        Some(s) => format!("storage({},{:x})", ha(a), s),
+                    };
+                    return Some(format!(
+                        "case {idx} racing tx {race_t} (executed after {race_p} predecessors had published) read {what} = {was}; every location in its read set {:?} still resolves to the recorded version after all predecessors published (validation accepts), yet the value is now {now}\n{descr}",
+                        reads.iter().map(|(l, v)| format!("{}={:?}", hloc(l), v)).collect::<Vec<_>>()
+                    ));
+                }
+            }
+            again.finish(&EvmState::default());
+        }
     }
     // sweep against stock revm
     let mut reference = revm_database::StateBuilder::new().with_database_ref(&base).build();
